@@ -242,6 +242,7 @@ func sameKey(a, b ssa.Value) bool {
 func runC12(w *World, r *Report) {
 	optionSemantics(w, r, "C12")
 	phaseTables(w, r, "C12")
+	wholeInputRule(w, r, "C12")
 	c12OptionValidation(w, r, "C12")
 	c12PositionSource(w, r)
 	c12PositionRecorded(w, r)
